@@ -5,6 +5,7 @@ usize values).  Arithmetic is over mathematical integers (usize wrap-around is e
 assumption, stated in the evidence).
 """
 
+import time as _time
 from fractions import Fraction
 
 
@@ -290,12 +291,19 @@ class _Budget:
         self.n = n
 
 
+DEADLINE = [None]   # wall-clock time after which every proof attempt gives up at once (set by the abstract interpreter per analysis)
+EXPIRED = [0]
+
+
 def prove_ge0(p, facts, depth=3, _seen=None, _budget=None):
     """Try to prove p >= 0 given facts (list of (rel, Poly)); atoms are >= 0."""
     if _nonneg_syntactic(p):
         return True
     if depth == 0:
         return False
+    if DEADLINE[0] is not None and _time.time() > DEADLINE[0]:
+        EXPIRED[0] += 1
+        return False   # "not proved" is always a sound answer
     if _budget is None:
         _budget = _Budget(1500)
     _budget.n -= 1
